@@ -73,6 +73,18 @@ def render_cfg(base_lines, constants):
     return "\n".join(out) + "\n"
 
 
+def cfg_with(base, directives=(), constants=None):
+    """cfg text from spec/<base> + extra directive lines (placed first) + extra literal constants."""
+    with open(os.path.join(SPEC_DIR, base)) as fh:
+        text = fh.read().rstrip("\n")
+    if "CONSTANTS" not in text:
+        text += "\nCONSTANTS"
+    out = "\n".join(directives) + "\n" + text + "\n"
+    for k, v in (constants or {}).items():
+        out += " %s = %s\n" % (k, tla_value(v))
+    return out
+
+
 def tla_value(v):
     """Python value -> TLA+ literal (cfg-safe subset: ints, bools, strings, sets, tuples)."""
     if isinstance(v, bool):
